@@ -17,6 +17,7 @@ import (
 func TestMain(m *testing.M) { h.Main(m) }
 
 type Case struct {
+	Reroot     int       `json:"reroot,omitempty"` // > 0: the tree is first re-rooted in memory at an inner node
 	Tree       *ref.Node `json:"tree"`
 	Kind       string    `json:"kind"` // length | support | depth
 	Thr        float64   `json:"thr"`
@@ -66,6 +67,9 @@ func genCase(t *rapid.T, thorough bool) Case {
 	m := gen.Tree(t, treeOpts(t, thorough))
 	c := Case{Tree: m, Kind: rapid.SampledFrom([]string{"length", "support", "depth"}).Draw(t, "kind"),
 		RemoveRoot: rapid.Bool().Draw(t, "rr"), RemoveTips: rapid.Bool().Draw(t, "rt")}
+	if rapid.IntRange(0, 2).Draw(t, "rerootfirst") == 0 {
+		c.Reroot = 1 + rapid.IntRange(0, 1000).Draw(t, "rerootat")
+	}
 	var lens, sups []float64
 	m.Walk(func(x, p *ref.Node) {
 		if p != nil && x.Len != nil {
@@ -101,6 +105,13 @@ func check(c Case) error {
 	t, err := gt.FromModel(c.Tree)
 	if err != nil {
 		return fmt.Errorf("parser rejects the start tree: %v", err)
+	}
+	if c.Reroot > 0 {
+		rm, _, err := gt.RerootBoth(t, c.Tree, c.Reroot-1)
+		if err != nil {
+			return err
+		}
+		c.Tree = rm
 	}
 	tx, err := ref.NewTaxa(c.Tree.Tips())
 	if err != nil {
@@ -259,6 +270,9 @@ func TestC07Collapse(t *testing.T) {
 		Check: check,
 		Classify: func(c Case) (bool, []string) {
 			l := []string{"kind:" + c.Kind, fmt.Sprintf("root=%v", c.RemoveRoot), fmt.Sprintf("tips=%v", c.RemoveTips)}
+			if c.Reroot > 0 && len(c.Tree.Ch) >= 3 && !c.Tree.HasSingleChildInner() {
+				l = append(l, "rerooted-in-memory-first")
+			}
 			if len(c.Tree.Ch) == 2 {
 				l = append(l, "rooted")
 			}
@@ -323,14 +337,22 @@ func TestC07Collapse(t *testing.T) {
 // ---------------------------------------------------------------------------------------
 
 type ResCase struct {
-	Tree *ref.Node `json:"tree"`
-	Seed int64     `json:"seed"`
+	Tree   *ref.Node `json:"tree"`
+	Seed   int64     `json:"seed"`
+	Reroot int       `json:"reroot,omitempty"`
 }
 
 func checkResolve(c ResCase) error {
 	t, err := gt.FromModel(c.Tree)
 	if err != nil {
 		return fmt.Errorf("parser rejects the start tree: %v", err)
+	}
+	if c.Reroot > 0 {
+		rm, _, err := gt.RerootBoth(t, c.Tree, c.Reroot-1)
+		if err != nil {
+			return err
+		}
+		c.Tree = rm
 	}
 	rand.Seed(c.Seed)
 	t.Resolve()
@@ -408,7 +430,11 @@ func TestC07Resolve(t *testing.T) {
 		Property: "C07", Name: "resolve", Quick: 12000, Thorough: 600000,
 		Rule: "same trees x seed; Resolve(); oracle = fully binary, every original clade kept with attributes, new branches have length 0 and no support, distance matrix identical (exact); non-trivial = >=1 polytomy resolved",
 		Gen: func(t *rapid.T, thorough bool) ResCase {
-			return ResCase{Tree: gen.Tree(t, treeOpts(t, thorough)), Seed: rapid.Int64Range(0, 1<<40).Draw(t, "seed")}
+			c := ResCase{Tree: gen.Tree(t, treeOpts(t, thorough)), Seed: rapid.Int64Range(0, 1<<40).Draw(t, "seed")}
+			if rapid.IntRange(0, 2).Draw(t, "rerootfirst") == 0 {
+				c.Reroot = 1 + rapid.IntRange(0, 1000).Draw(t, "rerootat")
+			}
+			return c
 		},
 		Check: checkResolve,
 		Classify: func(c ResCase) (bool, []string) {
